@@ -213,7 +213,7 @@ func genCase(t *rapid.T) Case {
 }
 
 func init() {
-	vf.Register(vf.Sub[Case]{Name: "export", Quick: 12000, Thorough: 150000, Gen: genCase, Check: check, Floor: 0.3,
+	vf.Register(vf.Sub[Case]{Name: "export", Quick: 12000, Thorough: 100000, Gen: genCase, Check: check, Floor: 0.3,
 		Rule: "formula trees as in C11 (depth <=4, <=8 names, exactly-one groups of >4 names only at positive polarity, as the property says); the exported bytes are parsed by the harness's own strict reader (header counts, literal range, name table: known names, distinct indices in range); all models of the exported CNF (<=20 variables) are enumerated; both directions asserted: each export model restricted through the name table and extended in every way over eliminated names satisfies the formula, and each formula model extends to an export model; non-trivial = export with >=1 auxiliary variable and >=2 clauses"})
 }
 
